@@ -48,14 +48,17 @@ def parseBody (b : Body) : Parsed :=
   | .undecodable _ false => .err
   | .val raw v => .val raw v
 
+/-- a non-Activity is wrapped in a Create -/
+def wrapIfNeeded (F : TFacts) (outbox : Iri) (asValue : J) : Prog J :=
+  if !F.isOrExt "Activity" (typeName asValue) then wrapInCreateM F asValue outbox else pure asValue
+
 /-- `deliver`: wrap, identify, side effects + outbox, then federate -/
 def deliver (F : TFacts) (cfg : BaseCfg) (outbox : Iri) (asValue : J) (raw : Option J) : Prog J := do
-  let asValue ← if !F.isOrExt "Activity" (typeName asValue) then wrapInCreateM F asValue outbox else pure asValue
-  if !isActivityIface F asValue then Prog.fail .lib else
-  let activity ← addNewIDs F asValue
-  let m := match raw with | some m => m | none => activity
-  let (deliverable, activity) ← postOutbox F cfg.delegate (socCb F) activity outbox m
-  if cfg.federated && deliverable then deliverS2S F outbox activity else pure activity
+  let asValue ← wrapIfNeeded F outbox asValue
+  if !isActivityIface F asValue then Prog.fail .lib else do
+    let activity ← addNewIDs F asValue
+    let r ← postOutbox F cfg.delegate (socCb F) activity outbox (raw.getD activity)
+    if cfg.federated && r.1 then deliverS2S F outbox r.2 else pure r.2
 
 /-- the federating default callbacks get `AddNewIDs` and `Deliver` as side channels -/
 def fedCbFull (F : TFacts) : CbConfig → Iri → String → J → Prog Unit :=
@@ -146,13 +149,10 @@ def send (F : TFacts) (cfg : BaseCfg) (outbox : Iri) (t : J) : Prog J :=
 /-- `NewActivityStreamsHandlerScheme` -/
 def handler (F : TFacts) (r : Request) : Prog Handled := do
   if !isAPGet r.method r.header then pure .notHandled else
-  Op.lock r.box
-  let res ← Prog.try_ (Op.get r.box)
-  Op.unlock r.box
+  let res ← Op.locked r.box (Op.get r.box)
   match res with
-  | .error e => Prog.fail e
-  | .ok none => Prog.fail .notFound
-  | .ok (some t) =>
+  | none => Prog.fail .notFound
+  | some t =>
   let t := clearSensitive F t
   respond (if F.isOrExt "Tombstone" (typeName t) then 410 else 200) t
 
